@@ -11,13 +11,23 @@ Decided:
         ``url.default_port`` (str and bytes keys), ``url.parse``, ``parse_h2_request_headers``,
         ``HttpStream.state_wait_for_request_headers`` (port and scheme chosen by the same test),
         ``har.request_to_flow``; ``_read_request_line`` defaults through ``url.default_port``.
-NOT decided: round-trip equality over all URLs (urllib, IDNA), validity checks, HTTP/2 host_header handling.
+  R33.3 no URL component is lost between ``url.parse`` and ``url.unparse`` (may-dependence, flow-insensitive def-use closure
+        inside each function): the *path* element of the tuple ``url.parse`` returns depends on EVERY request-target
+        component the stdlib parser it uses splits off - ``urlparse``: path, params, query, fragment; ``urlsplit``: path,
+        query, fragment (a use of the whole result object, e.g. ``urlunparse(parsed._replace(...))``, counts for all) -
+        and every value ``url.unparse`` returns depends on all four of its parameters.  A component that does not even
+        *may*-flow into the rebuilt path is dropped for every URL that carries it: the URL read back (and the request
+        sent upstream) names another resource.  The closure over-approximates dependence, so a violation is sound;
+        a component that flows only on some paths is NOT detected.
+NOT decided: round-trip equality over all URLs (urllib, IDNA), validity checks, HTTP/2 host_header handling; that the
+        components are re-joined with the right delimiters.
 """
 
 from __future__ import annotations
 
 import ast
 
+from ..core import AnalysisError
 from ..model import attr_chain
 from ..model import last_attr
 from ..selftest import Mutant
@@ -31,10 +41,12 @@ from ._helpers_E import show
 PROP = "C33"
 REG = {
     "strength": "narrow",
-    "technique": "path rules on the Request setters and url.hostport + positional agreement parse/unparse/url setter + default-port table agreement across six sites",
+    "technique": "path rules on the Request setters and url.hostport + positional agreement parse/unparse/url setter + default-port table agreement across six sites "
+    "+ def-use closure: every component the stdlib URL parser splits off may-flows into the path url.parse returns, every parameter of url.unparse into its result",
     "claim": "host/port edits always rewrite an existing Host header and a non-empty authority from the new scheme/host/port; the url "
-    "setter/getter agree with url.parse/unparse on component order; every port-defaulting site agrees with {http: 80, https: 443}.",
-    "note": "Two necessary conditions only; URL round-trip equality is not decided.",
+    "setter/getter agree with url.parse/unparse on component order; every port-defaulting site agrees with {http: 80, https: 443}; "
+    "url.parse's path carries path, ;params, ?query and #fragment of the parsed URL and url.unparse uses all four components.",
+    "note": "Three necessary conditions only; URL round-trip equality is not decided.",
 }
 
 HTTP = "mitmproxy/http.py"
@@ -62,9 +74,163 @@ def _ifexp_table(ctx, node: ast.IfExp, what: str):
     return {lit: node.body.value, other: node.orelse.value}
 
 
+# ---------------------------------------------------------------------------------------------------
+# R33.3 def-use closure
+
+_PARSERS = {
+    "urlparse": ("scheme", "netloc", "path", "params", "query", "fragment"),
+    "urlsplit": ("scheme", "netloc", "path", "query", "fragment"),
+}
+_TARGET_PARTS = ("path", "params", "query", "fragment")  # what belongs to the request target
+_DERIVE = ("encode", "decode", "_replace")  # methods of a parse result that return a parse result of the same kind
+_WHOLE = ("geturl",)
+
+
+def _bindings(fn):
+    """name -> [value expressions] for every binding of a local name in fn (flow-insensitive; nested defs excluded)."""
+    out: dict[str, list] = {}
+
+    def names(t):
+        if isinstance(t, ast.Name):
+            yield t.id
+        elif isinstance(t, (ast.Tuple, ast.List)):
+            for e in t.elts:
+                yield from names(e)
+        elif isinstance(t, ast.Starred):
+            yield from names(t.value)
+
+    def visit(node):
+        for ch in ast.iter_child_nodes(node):
+            if isinstance(ch, (ast.FunctionDef, ast.AsyncFunctionDef, ast.Lambda, ast.ClassDef)):
+                continue
+            if isinstance(ch, ast.Assign):
+                for t in ch.targets:
+                    for n in names(t):
+                        out.setdefault(n, []).append((t, ch.value))
+            elif isinstance(ch, (ast.AnnAssign, ast.AugAssign)) and ch.value is not None:
+                for n in names(ch.target):
+                    out.setdefault(n, []).append((ch.target, ch.value))
+            elif isinstance(ch, ast.NamedExpr):
+                out.setdefault(ch.target.id, []).append((ch.target, ch.value))
+            elif isinstance(ch, (ast.For, ast.AsyncFor)):
+                for n in names(ch.target):
+                    out.setdefault(n, []).append((ch.target, ch.iter))
+            elif isinstance(ch, (ast.With, ast.AsyncWith)):
+                for it in ch.items:
+                    if it.optional_vars is not None:
+                        for n in names(it.optional_vars):
+                            out.setdefault(n, []).append((it.optional_vars, it.context_expr))
+            visit(ch)
+
+    visit(fn)
+    return out
+
+
+def _parse_components(fn, expr, what):
+    """(parser kind, {component names expr may depend on}) through the def-use closure of ``fn``; 'ALL' marks a use of a whole parse result."""
+    binds = _bindings(fn)
+    # parse-result variables: bound to urlparse()/urlsplit() or to <parse result>.encode()/.decode()/._replace()
+    pvars: dict[str, str] = {}
+    unpacked: dict[str, tuple[str, str]] = {}  # name -> (kind, component) for 'a, b, c = urlparse(u)'
+    changed = True
+    while changed:
+        changed = False
+        for name, bs in binds.items():
+            for tgt, v in bs:
+                kind = None
+                if isinstance(v, ast.Call) and last_attr(v.func) in _PARSERS:
+                    kind = last_attr(v.func)
+                elif isinstance(v, ast.Call) and isinstance(v.func, ast.Attribute) and v.func.attr in _DERIVE and isinstance(v.func.value, ast.Name) and v.func.value.id in pvars:
+                    kind = pvars[v.func.value.id]
+                elif isinstance(v, ast.Name) and v.id in pvars:
+                    kind = pvars[v.id]
+                if kind is None:
+                    continue
+                if isinstance(tgt, ast.Name):
+                    if pvars.get(name) != kind:
+                        if name in pvars:
+                            raise AnalysisError(f"{what}: {name!r} holds results of different URL parsers (shape not modelled)")
+                        pvars[name] = kind
+                        changed = True
+                elif isinstance(tgt, (ast.Tuple, ast.List)) and len(tgt.elts) == len(_PARSERS[kind]) and all(isinstance(e, ast.Name) for e in tgt.elts):
+                    for e, comp in zip(tgt.elts, _PARSERS[kind]):
+                        if unpacked.get(e.id) != (kind, comp):
+                            unpacked[e.id] = (kind, comp)
+                            changed = True
+                else:
+                    raise AnalysisError(f"{what}: parse result unpacked in a shape that is not modelled: {ast.unparse(tgt)}")
+    found: set[tuple[str, str]] = set()
+    seen: set[str] = set()
+
+    def deps(e):
+        skip = set()
+        for n in ast.walk(e):
+            if id(n) in skip:
+                continue
+            if isinstance(n, ast.Attribute) and isinstance(n.value, ast.Name) and n.value.id in pvars:
+                kind = pvars[n.value.id]
+                skip.add(id(n.value))
+                if n.attr in _PARSERS[kind]:
+                    found.add((kind, n.attr))
+                elif n.attr in _WHOLE + _DERIVE:
+                    found.add((kind, "ALL"))  # a (re-encoded / partly replaced) copy of the whole result is handed on: over-approximate
+                elif n.attr not in ("hostname", "port", "username", "password"):
+                    raise AnalysisError(f"{what}: attribute {n.attr!r} of a parse result is not modelled")
+            elif isinstance(n, ast.Subscript) and isinstance(n.value, ast.Name) and n.value.id in pvars:
+                kind = pvars[n.value.id]
+                skip.add(id(n.value))
+                comps = _PARSERS[kind]
+                sl = n.slice
+                if isinstance(sl, ast.Constant) and isinstance(sl.value, int) and -len(comps) <= sl.value < len(comps):
+                    found.add((kind, comps[sl.value]))
+                elif isinstance(sl, ast.Slice) and all(x is None or (isinstance(x, ast.Constant) and isinstance(x.value, int)) for x in (sl.lower, sl.upper, sl.step)):
+                    for c in comps[slice(*(x.value if x is not None else None for x in (sl.lower, sl.upper, sl.step)))]:
+                        found.add((kind, c))
+                else:
+                    found.add((kind, "ALL"))
+            elif isinstance(n, ast.Name) and isinstance(n.ctx, ast.Load):
+                if n.id in pvars:
+                    found.add((pvars[n.id], "ALL"))  # the whole object is handed on
+                elif n.id in unpacked:
+                    found.add(unpacked[n.id])
+                elif n.id in binds and n.id not in seen:
+                    seen.add(n.id)
+                    for _, v in binds[n.id]:
+                        deps(v)
+
+    deps(expr)
+    kinds = {k for k, _ in found}
+    if len(kinds) != 1:
+        raise AnalysisError(f"{what}: the returned path is derived from {sorted(kinds) or 'no'} stdlib URL parser result(s) (shape not modelled)")
+    kind = kinds.pop()
+    comps = {c for _, c in found}
+    return kind, (set(_PARSERS[kind]) if "ALL" in comps else comps)
+
+
+def _param_deps(fn, expr):
+    """Parameters of fn that ``expr`` may depend on (def-use closure)."""
+    binds = _bindings(fn)
+    ps = set(params(fn, drop_self=False))
+    out, seen = set(), set()
+
+    def deps(e):
+        for n in ast.walk(e):
+            if isinstance(n, ast.Name) and isinstance(n.ctx, ast.Load):
+                if n.id in ps:
+                    out.add(n.id)
+                if n.id in binds and n.id not in seen:
+                    seen.add(n.id)
+                    for _, v in binds[n.id]:
+                        deps(v)
+
+    deps(expr)
+    return out
+
+
 def check(ctx):
     ctx.rule("R33.1", "host/port setters store then call _update_host_and_authority, which rewrites Host (if present) and authority (if non-empty) from hostport(scheme, host, port); url setter/getter agree with parse/unparse on order")
     ctx.rule("R33.2", "every port-defaulting site agrees with {http: 80, https: 443}")
+    ctx.rule("R33.3", "the path url.parse returns may-depends on every request-target component (path, ;params, ?query, #fragment) of the stdlib parse result; every url.unparse result depends on all four parameters")
     m = ctx.model
     req = m.cls(HTTP, "Request")
 
@@ -173,6 +339,9 @@ def check(ctx):
         return None
 
     order = [role(e) for e in rets[0].value.elts]
+    if order.count(None) == 1 and len(set(order)) == 4:
+        # three elements are recognised by the parse-result attribute they read; the fourth is the remaining component (R33.3 then decides what it is built from)
+        order[order.index(None)] = ({"host", "path", "port", "scheme"} - set(order)).pop()
     ctx.require(sorted(x or "?" for x in order) == ["host", "path", "port", "scheme"], f"url.parse: component roles of the returned tuple not recognised: {order}")
     g, s = prop_parts(req, "url")
     ctx.require(g is not None and s is not None, "Request.url property vanished")
@@ -199,6 +368,21 @@ def check(ctx):
     got = [arg_role(a) for a in calls_[0].args]
     ctx.check(got == up_params, "R33.1", (HTTP, "Request.url", calls_[0]), f"url getter: url.unparse({', '.join(str(x) for x in got)}) vs parameters ({', '.join(up_params)})",
               "the url getter passes the request's components to url.unparse in the wrong order", desc=f"url getter order = unparse parameters {up_params}")
+
+    # ---- R33.3 no component is lost
+    path_e = rets[0].value.elts[order.index("path")]
+    kind, comps = _parse_components(parse, path_e, "url.parse")
+    need = [c for c in _PARSERS[kind] if c in _TARGET_PARTS]
+    for c in need:
+        ctx.check(c in comps, "R33.3", (URL, "parse", rets[0]), f"url.parse: returned path does not depend on {kind}().{c}",
+                  f"url.parse splits the URL with urllib.parse.{kind}, which moves the {c!r} piece out of the other components, but the path it returns is computed only from {sorted(comps)}: "
+                  f"every URL that carries a {c} component reads back (and is sent upstream) without it",
+                  desc=f"url.parse: path <- {kind}().{c}")
+    u_rets = [n for n in ast.walk(unp) if isinstance(n, ast.Return) and n.value is not None]
+    ctx.require(len(u_rets) >= 1, "url.unparse returns nothing")
+    lost = sorted({p for r in u_rets for p in set(up_params) - _param_deps(unp, r.value)})
+    ctx.check(not lost, "R33.3", (URL, "unparse", unp), f"url.unparse: a returned URL does not depend on {lost}",
+              f"url.unparse builds a URL (on at least one return) without its {lost} component: Request.url no longer reflects the request", desc=f"url.unparse: every return <- {up_params}")
 
     # ---- R33.2 default-port tables
     def table(site, where, tab, node):
@@ -262,6 +446,7 @@ def check(ctx):
 
     expect(ctx, "R33.1", 6)
     expect(ctx, "R33.2", 6)
+    expect(ctx, "R33.3", len(need) + 1)
 
 
 MUTANTS = [
@@ -280,5 +465,11 @@ MUTANTS = [
     Mutant("h2-default-port-swapped", H2, "port = 80 if scheme == b\"http\" else 443", "port = 80 if scheme == b\"https\" else 443", "R33.2"),
     Mutant("httpstream-default-port-swapped", HS, "port = 443 if self.context.client.tls else 80", "port = 80 if self.context.client.tls else 443", "R33.2"),
     Mutant("har-default-port-wrong", HAR, "    if request_url.startswith(\"http://\"):\n        port = 80\n    else:\n        port = 443\n", "    if request_url.startswith(\"http://\"):\n        port = 80\n    else:\n        port = 80\n", "R33.2"),
+    Mutant("parse-drops-params", URL, "    full_path: bytes = urllib.parse.urlunparse(\n        (b\"\", b\"\", parsed_b.path, parsed_b.params, parsed_b.query, parsed_b.fragment)  # type: ignore\n    )\n",
+           "    full_path: bytes = parsed_b.path or b\"/\"\n    if parsed_b.query:\n        full_path += b\"?\" + parsed_b.query\n    if parsed_b.fragment:\n        full_path += b\"#\" + parsed_b.fragment\n", "R33.3"),
+    Mutant("parse-drops-query", URL, "(b\"\", b\"\", parsed_b.path, parsed_b.params, parsed_b.query, parsed_b.fragment)", "(b\"\", b\"\", parsed_b.path, parsed_b.params, b\"\", parsed_b.fragment)", "R33.3"),
+    Mutant("parse-returns-bare-path", URL, "    return parsed_b.scheme, host, port, full_path\n", "    return parsed_b.scheme, host, port, parsed_b.path or b\"/\"\n", "R33.3"),
+    Mutant("unparse-bytes-drops-path", URL, "        return b\"%s://%s%s\" % (scheme, authority, path)\n", "        return b\"%s://%s/\" % (scheme, authority)\n", "R33.3"),
+    Mutant("unparse-ignores-port", URL, "    authority = hostport(scheme, host, port)\n\n    if isinstance(scheme, str):", "    authority = host\n\n    if isinstance(scheme, str):", "R33.3"),
     Mutant("request-line-own-default", READ, "            port = port or url.default_port(scheme)\n", "            port = port or 80\n", "R33.2"),
 ]
